@@ -140,6 +140,8 @@ def gridlist_obs(gl, numeric=True):
     """what a per-cell GridList reports: its shape, its length and its layout on the native grid"""
     import numpy as np
     out = {"shape": list(gl.shape), "len": len(gl)}
+    if not numeric:
+        return out
     try:
         nat = gl.native
         out["native_shape"] = list(nat.shape)
@@ -269,6 +271,9 @@ def run_case(c, shared=None):
         obj.number_of_steps = tuple(ns) if c["as_tuple"] else ns[0]
         obj.perturb_model = af.Collection(*[af.Model(af.Gaussian, centre=af.UniformPrior(0.0, 1.0), normalization=1.0, sigma=1.0)
                                             for _ in ns])
+        for k, attr, src in c.get("share", []):
+            # component k's attribute is driven by the very prior of component src's centre: no new dimension
+            setattr(obj.perturb_model[k], attr, obj.perturb_model[src].centre)
         obj.limit_scale = 1
         lists = obj._lists
         return {"lists": hexrows(lists), "shape": list(obj.shape)}
@@ -366,7 +371,6 @@ def fit_run(c, shared=None):
         "row_lengths": sorted({len(x) for lst in (res.lower_limits_lists, res.upper_limits_lists, res.centres_lists,
                                                   res.physical_lower_limits_lists, res.physical_upper_limits_lists,
                                                   res.physical_centres_lists) for x in lst}),
-        "step_sizes_len": len(res.physical_step_sizes),
         "gridlists": {
             "samples": gridlist_obs(res.samples, False),
             "lower_limits_lists": gridlist_obs(res.lower_limits_lists, False),
